@@ -6,11 +6,13 @@ HEADER = """From Coq Require Import ZArith List Bool.
 Require Import GV.Model.Discovery GV.Model.DiscoveryChk.
 Import ListNotations. Open Scope Z_scope.
 """
-NAMES = ["My Spa", "Spa|with|bars", "caf\xe9 \xfc", "", "|", "1", "x" * 40]
+NAMES = ["My Spa", "Spa|with|bars", "caf\xe9 \xfc", "", "|", "1", "x" * 40,
+         # names that begin / end with characters str.strip() would eat, upper / lower case twins, a name that is an identifier
+         " Spa ", "Spa\t", "\xa0Spa", "Spa\x85", "\x1fSpa\x1c", "SPA", "spa", "SPA01:02:03:04:05:06", "Spa  two  blanks", "\r"]
 
 
 def run(ctx):
-    ctx.rule = ("the REAL GeckoAsyncLocator.discover under the virtual-time loop against 0-5 scripted spas (names with '|' and non-ASCII latin-1, 0-3 copies per reply, "
+    ctx.rule = ("the REAL GeckoAsyncLocator.discover under the virtual-time loop against 0-5 scripted spas (names with '|', non-ASCII latin-1, leading / trailing blanks and control characters, case twins, 0-3 copies per reply, "
                 "latencies 0.01-6 s, replies to the first four broadcasts, losses), with and without identifier / address filters, with event-loop stalls of 13-310 ms; "
                 "the label stream (arrival / consumer pop / main-loop poll with its age, in real execution order) is replayed on Model/Discovery.v and the listed spas and "
                 "the age at which discover() left its loop are compared; endpoint closed and LOC tasks gone on return; non-trivial = script with duplicates, a filter or a stall")
